@@ -7,6 +7,8 @@ from typing import Optional
 
 import z3
 
+from pyvc import seqs as Q
+
 from . import extract
 from .core import (CLASSES, CONSTS, NONE, SeqV, V, IntS, BoolS, Spec, VAL, Sym, State, DictPayload,
                    ExcInfo, S_bool, S_int, S_none, S_seq, S_str, S_val, Unsupported, fresh,
@@ -24,6 +26,12 @@ class CallMixin:
             r = self.spec_call(fn.id, node, st)
             if r is not None:
                 return r
+        lc = getattr(self.contract, "local_contracts", None)
+        if lc and not self.spec_mode:
+            key = ast.unparse(fn)
+            if key in lc:
+                args, kwargs = self.eval_args(node, st)
+                return self.apply_contract(lc[key], args, kwargs, st, node, label=key)
         # method call ---------------------------------------------------------
         if isinstance(fn, ast.Attribute):
             if isinstance(fn.value, ast.Call) and isinstance(fn.value.func, ast.Name) and fn.value.func.id == "super":
@@ -83,8 +91,6 @@ class CallMixin:
 
     def opaque_result(self, st, node, what, args=()) -> Sym:
         self.collector.opaque_calls.add(f"{self.kernel.qualname}: {what} (line {getattr(node, 'lineno', '?')})")
-        if not self.spec_mode:
-            self.may_raise(st, self.fresh_term(st, "opaque_raises", BoolS), "Exception", f"opaque call line {getattr(node, 'lineno', '?')}")
         return S_val(self.fresh_term(st, "opaque", V))
 
     def external_call(self, q: str, node, st) -> Sym:
@@ -130,22 +136,22 @@ class CallMixin:
     def b_len(self, node, st):
         x = self.eval(node.args[0], st)
         if x.kind in ("seq", "set"):
-            return S_int(z3.Length(x.t))
+            return S_int(Q.Length(x.t))
         if x.kind == "dict":
-            return S_int(z3.Length(x.py.keys))
+            return S_int(Q.Length(x.py.keys))
         if x.kind == "val":
             sp = x.spec
             if sp is not None and sp.kind == "str":
                 return S_int(uf("str_len", V, IntS)(x.t))
             if sp is not None and sp.kind in ("dict", "set"):
                 return self.b_len_sym(unbox(sp, x.t, st))
-            return S_int(z3.Length(unS(x.t)))
+            return S_int(Q.Length(unS(x.t)))
         raise Unsupported("len")
 
     def b_len_sym(self, x):
         if x.kind == "dict":
-            return S_int(z3.Length(x.py.keys))
-        return S_int(z3.Length(x.t))
+            return S_int(Q.Length(x.py.keys))
+        return S_int(Q.Length(x.t))
 
     def class_test(self, x: Sym, cls: Sym, st):
         if cls.kind == "cls":
@@ -251,7 +257,7 @@ class CallMixin:
             return Sym("seq", view.seq, Spec("seq", view.espec))
         r = self.fresh_term(st, "mat", SeqV)
         i = fresh("mi", IntS)
-        st.assume(z3.Length(r) == view.length)
+        st.assume(Q.Length(r) == view.length)
         pcn = len(st.pc)
         binders = st.notes.get("binders") or []
         st.notes["binders"] = binders + [i]
@@ -266,23 +272,23 @@ class CallMixin:
         rng = z3.And(0 <= i, i < view.length)
         for f in new:
             st.pc.append(z3.ForAll([i], z3.Implies(rng, f)))
-        st.assume(z3.ForAll([i], z3.Implies(rng, r[i] == eb)))
+        st.assume(z3.ForAll([i], z3.Implies(rng, Q.At(r, i) == eb)))
         return Sym("seq", r, Spec("seq", view.espec))
 
     def display_syms(self, items, st) -> Sym:
-        parts = [z3.Unit(box(s, st)) for s in items]
-        t = parts[0] if len(parts) == 1 else z3.Concat(*parts)
+        parts = [Q.Unit(st, box(s, st)) for s in items]
+        t = Q.Concat(st, *parts)
         return Sym("seq", t, Spec("seq", VAL, True))
 
     def b_list(self, node, st):
         if not node.args:
-            return Sym("seq", z3.Empty(SeqV), Spec("seq", VAL, False))
+            return Sym("seq", Q.Empty(), Spec("seq", VAL, False))
         s = self.materialise(self.eval(node.args[0], st), st, node)
         return Sym("seq", s.t, Spec("seq", elem_spec(s), False))
 
     def b_tuple(self, node, st):
         if not node.args:
-            return Sym("seq", z3.Empty(SeqV), Spec("seq", VAL, True))
+            return Sym("seq", Q.Empty(), Spec("seq", VAL, True))
         s = self.materialise(self.eval(node.args[0], st), st, node)
         return Sym("seq", s.t, Spec("seq", elem_spec(s), True))
 
@@ -297,7 +303,7 @@ class CallMixin:
     def _quant(self, node, st, is_all: bool):
         a = node.args[0]
         if isinstance(a, (ast.GeneratorExp, ast.ListComp)):
-            view, i, rng, elt, cond, eb = self.comp_core(a, st)
+            view, i, rng, elt, cond, eb = self.comp_core(a, st, need_box=False)
             b = truth(elt, st)
             if is_all:
                 body = z3.Implies(rng if cond is None else z3.And(rng, cond), b)
@@ -331,7 +337,7 @@ class CallMixin:
                 r = z3.If((x > r) if is_max else (x < r), x, r)
             return S_int(r)
         s = self.materialise(self.eval(node.args[0], st), st, node)
-        n = z3.Length(s.t)
+        n = Q.Length(s.t)
         has_default = any(kw.arg == "default" for kw in node.keywords)
         if not has_default:
             self.may_raise(st, n == 0, "ValueError", f"{'max' if is_max else 'min'}() of empty sequence line {node.lineno}")
@@ -339,8 +345,8 @@ class CallMixin:
         i = fresh("mi", IntS)
         rng = z3.And(0 <= i, i < n)
         st.assume(z3.Implies(n > 0, z3.And(
-            z3.ForAll([i], z3.Implies(rng, (unI(s.t[i]) <= r) if is_max else (unI(s.t[i]) >= r))),
-            z3.Exists([i], z3.And(rng, unI(s.t[i]) == r)))))
+            z3.ForAll([i], z3.Implies(rng, (unI(Q.At(s.t, i)) <= r) if is_max else (unI(Q.At(s.t, i)) >= r))),
+            z3.Exists([i], z3.And(rng, unI(Q.At(s.t, i)) == r)))))
         if has_default:
             d = [as_int(self.eval(kw.value, st), st) for kw in node.keywords if kw.arg == "default"][0]
             st.assume(z3.Implies(n == 0, r == d))
@@ -349,7 +355,7 @@ class CallMixin:
     def b_sum(self, node, st):
         s = self.materialise(self.eval(node.args[0], st), st, node)
         f = uf("seq_sum", SeqV, IntS)
-        st.assume(z3.Implies(z3.Length(s.t) == 0, f(s.t) == 0))
+        st.assume(z3.Implies(Q.Length(s.t) == 0, f(s.t) == 0))
         return S_int(f(s.t))
 
     def b_iter(self, node, st):
@@ -506,10 +512,10 @@ class CallMixin:
             x = self.eval(node.args[0], st)
             xb = box(x, st)
             r = self.fresh_term(st, "idx", IntS)
-            self.may_raise(st, z3.Not(seq_contains(base.t, xb)), "ValueError", "list.index")
+            self.may_raise(st, z3.Not(seq_contains(base.t, xb, st)), "ValueError", "list.index")
             i = fresh("ii", IntS)
-            st.assume(z3.Implies(seq_contains(base.t, xb), z3.And(0 <= r, r < z3.Length(base.t), base.t[r] == xb,
-                                                                   z3.ForAll([i], z3.Implies(z3.And(0 <= i, i < r), base.t[i] != xb)))))
+            st.assume(z3.Implies(seq_contains(base.t, xb, st), z3.And(0 <= r, r < Q.Length(base.t), Q.At(base.t, r) == xb,
+                                                                   z3.ForAll([i], z3.Implies(z3.And(0 <= i, i < r), Q.At(base.t, i) != xb)))))
             return S_int(r)
         if meth == "copy":
             return base
@@ -525,17 +531,17 @@ class CallMixin:
         if meth == "get":
             k = box(self.eval(node.args[0], st), st)
             d = self.eval(node.args[1], st) if len(node.args) > 1 else S_none()
-            present = seq_contains(p.keys, k)
+            present = seq_contains(p.keys, k, st)
             v = unbox(p.vspec, z3.Select(p.vals, k), st)
             return self.ite(present, v, d, st)
         if meth == "items":
             def get(i, st_):
-                return Sym("pyobj", None, None, ("pytuple", [unbox(p.kspec, p.keys[i], st_), unbox(p.vspec, z3.Select(p.vals, p.keys[i]), st_)]))
-            return Sym("pyobj", None, None, ("iterview", IterView(z3.Length(p.keys), get, None)))
+                return Sym("pyobj", None, None, ("pytuple", [unbox(p.kspec, Q.At(p.keys, i), st_), unbox(p.vspec, z3.Select(p.vals, Q.At(p.keys, i)), st_)]))
+            return Sym("pyobj", None, None, ("iterview", IterView(Q.Length(p.keys), get, None)))
         if meth == "keys":
-            return Sym("pyobj", None, None, ("iterview", IterView(z3.Length(p.keys), lambda i, st_: unbox(p.kspec, p.keys[i], st_), p.keys, p.kspec)))
+            return Sym("pyobj", None, None, ("iterview", IterView(Q.Length(p.keys), lambda i, st_: unbox(p.kspec, Q.At(p.keys, i), st_), p.keys, p.kspec)))
         if meth == "values":
-            return Sym("pyobj", None, None, ("iterview", IterView(z3.Length(p.keys), lambda i, st_: unbox(p.vspec, z3.Select(p.vals, p.keys[i]), st_), None, p.vspec)))
+            return Sym("pyobj", None, None, ("iterview", IterView(Q.Length(p.keys), lambda i, st_: unbox(p.vspec, z3.Select(p.vals, Q.At(p.keys, i)), st_), None, p.vspec)))
         if meth == "copy":
             return base
         raise Unsupported(f"dict method {meth}")
@@ -555,9 +561,9 @@ class CallMixin:
         self._assume_distinct(st, keys)
         fo = uf("first_occ", SeqV, V, IntS)
         i, j = fresh("di", IntS), fresh("dj", IntS)
-        st.assume(z3.ForAll([i, j], z3.Implies(z3.And(0 <= i, i < j, j < z3.Length(keys)), fo(s.t, keys[i]) < fo(s.t, keys[j]))))
-        st.assume(z3.ForAll([x], z3.Implies(seq_contains(s.t, x), z3.And(0 <= fo(s.t, x), fo(s.t, x) < z3.Length(s.t), s.t[fo(s.t, x)] == x))))
-        st.assume(z3.ForAll([i], z3.Implies(z3.And(0 <= i, i < z3.Length(s.t)), fo(s.t, s.t[i]) <= i)))
+        st.assume(z3.ForAll([i, j], z3.Implies(z3.And(0 <= i, i < j, j < Q.Length(keys)), fo(s.t, Q.At(keys, i)) < fo(s.t, Q.At(keys, j)))))
+        st.assume(z3.ForAll([x], z3.Implies(seq_contains(s.t, x), z3.And(0 <= fo(s.t, x), fo(s.t, x) < Q.Length(s.t), Q.At(s.t, fo(s.t, x)) == x))))
+        st.assume(z3.ForAll([i], z3.Implies(z3.And(0 <= i, i < Q.Length(s.t)), fo(s.t, Q.At(s.t, i)) <= i)))
         es = elem_spec(s)
         return Sym("dict", None, Spec("dict", (es, VAL)), DictPayload(keys, z3.K(V, NONE), es, VAL))
 
@@ -580,21 +586,21 @@ class CallMixin:
         args = [self.eval(a, st) for a in node.args]
         if base.kind == "seq":
             if meth == "append":
-                self.store_back(recv_node, Sym("seq", z3.Concat(base.t, z3.Unit(box(args[0], st))), self._widen(base.spec, args[0])), st)
+                self.store_back(recv_node, Sym("seq", Q.Concat(st, base.t, Q.Unit(st, box(args[0], st))), self._widen(base.spec, args[0])), st)
                 return S_none()
             if meth == "extend":
-                self.store_back(recv_node, Sym("seq", z3.Concat(base.t, as_seq(self.materialise(args[0], st, node), st)), base.spec), st)
+                self.store_back(recv_node, Sym("seq", Q.Concat(st, base.t, as_seq(self.materialise(args[0], st, node), st)), base.spec), st)
                 return S_none()
             if meth == "insert":
                 i = as_int(args[0], st)
                 if z3.is_int_value(i) and i.as_long() == 0:
-                    self.store_back(recv_node, Sym("seq", z3.Concat(z3.Unit(box(args[1], st)), base.t), base.spec), st)
+                    self.store_back(recv_node, Sym("seq", Q.Concat(st, Q.Unit(st, box(args[1], st)), base.t), base.spec), st)
                     return S_none()
             if meth == "pop" and not args:
-                n = z3.Length(base.t)
+                n = Q.Length(base.t)
                 self.may_raise(st, n == 0, "IndexError", "pop from empty list")
-                self.store_back(recv_node, Sym("seq", z3.Extract(base.t, 0, n - 1), base.spec), st)
-                return unbox(elem_spec(base), base.t[n - 1], st)
+                self.store_back(recv_node, Sym("seq", Q.Extract(st, base.t, z3.IntVal(0), n - 1), base.spec), st)
+                return unbox(elem_spec(base), Q.At(base.t, n - 1), st)
             raise Unsupported(f"list.{meth}")
         if base.kind == "set":
             if meth == "add":
@@ -608,10 +614,10 @@ class CallMixin:
             p = base.py
             if meth == "setdefault":
                 kb = box(args[0], st)
-                present = seq_contains(p.keys, kb)
+                present = seq_contains(p.keys, kb, st)
                 d = args[1] if len(args) > 1 else S_none()
                 db = box(d, st)
-                keys = z3.If(present, p.keys, z3.Concat(p.keys, z3.Unit(kb)))
+                keys = z3.If(present, p.keys, Q.Concat(st, p.keys, Q.Unit(st, kb)))
                 vals = z3.If(present, p.vals, z3.Store(p.vals, kb, db))
                 self.store_back(recv_node, Sym("dict", None, base.spec, DictPayload(keys, vals, p.kspec, p.vspec)), st)
                 return unbox(p.vspec, z3.If(present, z3.Select(p.vals, kb), db), st)
